@@ -292,6 +292,10 @@ pub enum CqlRequestSerializationError {
     /// Request body compression failed.
     #[error("Snap compression error: {0}")]
     SnapCompressError(Arc<dyn Error + Sync + Send>),
+
+    /// Request body does not fit in the 32-bit length field of a frame.
+    #[error("Request body is too long: {0} bytes do not fit in the frame's 32-bit length field")]
+    BodyTooLong(usize),
 }
 
 /// An error type returned when deserialization of CQL
